@@ -12,7 +12,7 @@ import ast
 from ..callgraph import show_path
 from ..model import AnalysisError, src
 from ..report import Report, key_of
-from ..terms import pretty
+from ..terms import has_opaque, pretty
 from ..types import Ctx
 from .common import TRUSTED_BASE, cfg_nodes_for, inl, is_run_edge, subst_single_assign, where
 from .purity import check_stateless
@@ -228,36 +228,86 @@ def run(A, R: Report, thorough: bool):
 
 
 def check_registry_reuse(A, R: Report, rid: str):
-    R.rule(rid, 'Chain._create_task returns the registry entry on every path where the key is present; stores under the same key otherwise', floor=2)
+    """Value term of Chain._create_task by cases: registry given and key present -> the registered object; key absent
+    -> the new task, which is stored under the same key on every such path; no registry -> the new task."""
+    from ..terms import assume
+    R.rule(rid, 'Chain._create_task returns the registry entry whenever the key is present; otherwise stores the new task under the same key and returns it', floor=2)
     f = A.func('Chain._create_task')
     cfg = A.cfg(f)
     regs = [p for p in f.params if 'registry' in p]
     R.require(regs, 'anchor: Chain._create_task has no *registry* parameter')
     reg = regs[0]
-    hit_tests = [n for n in cfg.nodes.values() if n.kind == 'test' and isinstance(n.ast, ast.Compare) and len(n.ast.ops) == 1
-                 and isinstance(n.ast.ops[0], ast.In) and src(n.ast.comparators[0]) == reg]
-    R.require(hit_tests, f'anchor: no `key in {reg}` test in Chain._create_task')
-    import networkx as nx
-    for t in hit_tests:
-        keyexpr = src(t.ast.left)
-        t_edges = [v for v in cfg.g.successors(t.id) if cfg.nodes[v].kind == 'edge' and cfg.nodes[v].label == 'T']
-        ok = bool(t_edges)
-        rets = []
-        for te in t_edges:
-            for d in nx.descendants(cfg.g, te):
-                nd = cfg.nodes[d]
-                if nd.kind == 'stmt' and isinstance(nd.ast, ast.Return):
-                    rets.append(nd)
-        ok = ok and bool(rets) and all(r.ast.value is not None and src(r.ast.value) == f'{reg}[{keyexpr}]' for r in rets)
-        R.check(ok, rid, 'Chain._create_task: registry hit', key_of('hit', keyexpr, [src(r.ast) for r in rets]),
-                f'hit on `{keyexpr}` returns {reg}[{keyexpr}]', f'a registry hit on `{keyexpr}` does not (only) return the registered task: {[src(r.ast) for r in rets]}',
-                where=where(f, t.ast))
-        # the miss path stores under the same key and returns what it stored
-        stores = [n for n in A.typer.own_nodes(f) if isinstance(n, ast.Assign) and isinstance(n.targets[0], ast.Subscript)
-                  and src(n.targets[0].value) == reg]
-        ok2 = bool(stores) and all(src(s.targets[0].slice) == keyexpr for s in stores)
-        final_rets = [n for n in A.typer.own_nodes(f) if isinstance(n, ast.Return) and n not in [r.ast for r in rets]]
-        ok3 = bool(final_rets) and all(st.value is not None and any(src(st.value) == src(s.value) for s in stores) for st in final_rets)
-        R.check(ok2 and ok3, rid, 'Chain._create_task: registry miss', key_of('miss', [src(s) for s in stores], [src(r) for r in final_rets]),
-                'miss stores under the tested key and returns the stored task', 'registry miss path stores under a different key or returns a different object',
-                where=where(f))
+    regp = ('p', reg)
+    stop_old = A.sym.stop_at
+    A.sym.stop_at = {fi.qualname for fi in A.prog.functions.values() if fi.name in ('slugname', 'name_for_persistence', 'repr_name_without_namespace', 'get_name_for_persistence', 'get_config')}
+    try:
+        t = A.sym.func_term(f, ('inst', A.cls('Chain')))
+        tests = [n.left for n in inl(A, f) if isinstance(n, ast.Compare) and len(n.ops) == 1 and isinstance(n.ops[0], (ast.In, ast.NotIn)) and src(n.comparators[0]) == reg]
+        stores = [n for n in inl(A, f) if isinstance(n, ast.Assign) and isinstance(n.targets[0], ast.Subscript) and src(n.targets[0].value) == reg]
+        at = A.sym.terms_at(f, ('inst', A.cls('Chain')), tests + [s_.targets[0].slice for s_ in stores] + [s_.value for s_ in stores])
+    finally:
+        A.sym.stop_at = stop_old
+    if not tests:
+        if has_opaque(t):
+            R.undecided(rid, 'Chain._create_task', 'registry lookup idiom not recognised', where=where(f))
+            R.undecided(rid, 'Chain._create_task: registry miss', 'registry lookup idiom not recognised', where=where(f))
+        else:
+            R.violation(rid, 'Chain._create_task: registry hit', key_of('hit', 'no-membership-test'), 'no `key in registry` test: an existing task object for the same computation is not found (or found by something else than its key)',
+                        witness=[pretty(t)[:300]], where=where(f))
+            R.ok(rid, 'Chain._create_task: registry miss', 'not applicable', where=where(f))
+        return
+    new_task = ('call', 'apply', (('p', f.params[0]), ('p', f.params[1])))
+    is_tpc = ('isinst', ('p', f.params[1]), ('global', 'TaskParameterConfig'))
+    hit_ok, miss_ok, none_ok, store_ok = True, True, True, bool(stores)
+    shown = []
+    for mode in (True, False):
+        dm = (lambda c, mode=mode: mode if c == is_tpc else None)
+        keys = {assume(k, dm) for n in tests for k in at.get(id(n), [])}
+        if len(keys) != 1:
+            hit_ok = False
+            shown.append(f'{len(keys)} different keys tested')
+            continue
+        km = next(iter(keys))
+        tm = assume(t, dm)
+
+        def dec(hit, present=True, km=km):
+            def d(c):
+                if c == regp:
+                    return present
+                if c[0] == 'cmp' and c[1] in ('Is', 'IsNot') and c[2] == regp and c[3] == ('lit', None):
+                    return (not present) if c[1] == 'Is' else present
+                if c[0] == 'cmp' and c[1] in ('In', 'NotIn') and c[2] == km and c[3] == regp:
+                    return hit if c[1] == 'In' else (not hit)
+                if c[0] == 'cmp' and c[1] in ('Gt', 'NotEq') and c[2] == ('call', 'len', (regp,)) and c[3] == ('lit', 0):
+                    return present
+                return None
+            return d
+
+        h, m, n_ = assume(tm, dec(True)), assume(tm, dec(False)), assume(tm, dec(False, present=False))
+        shown.append(f'hit -> {pretty(h)[:120]}')
+        hit_ok = hit_ok and h == ('index', regp, km)
+        miss_ok = miss_ok and m == new_task
+        none_ok = none_ok and n_ == new_task
+        for s_ in stores:
+            ks = {assume(k, dm) for k in at.get(id(s_.targets[0].slice), [])}
+            vs = {assume(v, dm) for v in at.get(id(s_.value), [])}
+            store_ok = store_ok and ks == {km} and vs == {new_task}
+    if has_opaque(t) and not (hit_ok and miss_ok and none_ok):
+        R.undecided(rid, 'Chain._create_task: registry hit', 'the value of _create_task involves a construct the term engine does not interpret', where=where(f))
+        R.undecided(rid, 'Chain._create_task: registry miss', 'the value of _create_task involves a construct the term engine does not interpret', where=where(f))
+        return
+    R.check(hit_ok, rid, 'Chain._create_task: registry hit', key_of('hit', hit_ok), 'a hit returns the registered task',
+            'with the key present in the registry, _create_task does not (only) return the registered task: identical computations get separate objects, or another object is handed out',
+            witness=shown, where=where(f, tests[0]))
+    # every path on which the registry is given and a new task is returned stores it first
+    rets_new = [n.id for n in cfg.nodes.values() if n.kind == 'stmt' and isinstance(n.ast, ast.Return) and n.ast.value is not None and n.owner is f.node
+                and not (isinstance(subst_single_assign(A, f, n.ast.value), ast.Subscript))]
+    gates = [cn.id for s_ in stores for cn in cfg_nodes_for(cfg, s_)]
+    for n in cfg.nodes.values():
+        if n.kind == 'edge' and isinstance(n.ast, ast.Compare) and len(n.ast.ops) == 1 and src(n.ast.left) == reg and isinstance(n.ast.comparators[0], ast.Constant) and n.ast.comparators[0].value is None:
+            if (isinstance(n.ast.ops[0], ast.Is) and n.label == 'T') or (isinstance(n.ast.ops[0], ast.IsNot) and n.label == 'F'):
+                gates.append(n.id)
+    unstored = cfg.find_path([cfg.entry.id], rets_new, avoid=gates, no_exc_from=list(cfg.nodes)) if rets_new else None
+    R.check(miss_ok and none_ok and store_ok and unstored is None, rid, 'Chain._create_task: registry miss', key_of('miss', miss_ok, none_ok, store_ok, unstored is None),
+            'a miss stores the new task under the tested key and returns it', 'registry miss path stores under a different key, stores another object, or returns without storing: the next identical computation gets a separate object',
+            witness=cfg.describe_path(unstored) if unstored else shown, where=where(f))
